@@ -732,7 +732,16 @@ func nativeReplay(repo, verif string, replayOverlay map[string]string, cfg *chec
 		id := fmt.Sprintf("witness-%d", i)
 		r, ok := results[id]
 		bad := ""
+		mapOrderDependent := false
+		for _, in := range w.w.Inputs {
+			if strings.HasPrefix(in.Name, "maporder") {
+				mapOrderDependent = true
+			}
+		}
 		switch {
+		case mapOrderDependent:
+			// Go's native map order cannot be steered: such witnesses are not comparable
+			continue
 		case !ok:
 			bad = "no native result"
 		case r.Desync != "":
